@@ -4,12 +4,13 @@ import PsModel.Spec.C13
 /-!
 line-protocol front end of the C13 model: replays an observed linearisation
 
-  C13 (run OP …)      OP ::= (sp t fg) | (u t ctx name km) | (rp t) | (x t ret|can) | (dn t ctx name km)
+  C13 (run OP …)      OP ::= (sp t fg) | (u t ctx name km) | (rp t) | (eb t) | (x t ret|can) | (dn t ctx name km)
                             | (ck ctx name) | (snap ctx …)
 
 Output: `ok <model tokens> ## <spec tokens>`; one token per op:
   sp → `s`            u → `u:ok` | `u:park` | `u:bad` (caller cannot run a segment)
   rp → `r:ok` | `r:bad` (reaper busy, or `t` is not the head of the queue)
+  eb → `e:ok` | `e:bad` (the awaited coroutine of a task that is not running cannot end)
   x  → `x:ok` | `x:bad` (task not running, or cancelled-ness does not match a delivered cancel)
   dn → `d:run` | `d:skip`      ck → `c:used` | `c:free`
   snap → `[name2id per ctx | status per task | reaper queue | our_tasks | unique_task2name]`
@@ -66,7 +67,8 @@ def snapSpec (d : Drv) (ctxs : List Str) : String :=
   let status := "".intercalate (ts.map fun t => if d.sp.alive t then "r" else "-")
   s!"[{views} | {status}]"
 
-def both (d : Drv) (op : Op Key) : Drv := { d with m := step d.m op, sp := d.sp.step op }
+/-- the model column is replayed with the steps ASSEMBLED FROM THE EXTRACTED SHAPE TABLES (`C13_shape_step`: = `step`) -/
+def both (d : Drv) (op : Op Key) : Drv := { d with m := stepSh Shape.extracted current d.m op, sp := d.sp.step op }
 
 def stepOp (d : Drv) (x : Sexp) : Option Drv :=
   match x with
@@ -92,6 +94,9 @@ def stepOp (d : Drv) (x : Sexp) : Option Drv :=
     let t ← t.nat?
     let ok := !busy d.m && d.m.reaperQ.head? == some t
     pure ((both d .reap).emit (if ok then "r:ok" else "r:bad") "r")
+  | .list [.atom "eb", t] => do
+    let t ← t.nat?
+    pure ((both d (.endBody t)).emit (if d.m.live t then "e:ok" else "e:bad") (if d.sp.alive t then "e:ok" else "e:bad"))
   | .list [.atom "x", t, .atom why] => do
     let t ← t.nat?
     let ok := d.m.live t && (d.m.cancelReq t == (why == "can"))
